@@ -16,6 +16,7 @@ import py2coq  # noqa: E402
 import rewards2coq  # noqa: E402
 import transition2coq  # noqa: E402
 import loops2coq  # noqa: E402
+import moments2coq  # noqa: E402
 
 # one entry per translated source file: translator module, source, committed generated file, equivalence proofs
 TIES = {
@@ -23,6 +24,7 @@ TIES = {
     'rewards': dict(mod=rewards2coq, src='rewards.py', gen='RewardsGen', equiv='GenRewardsEquiv'),
     'transition': dict(mod=transition2coq, src='state_space.py', gen='TransitionGen', equiv='GenTransitionEquiv'),
     'loops': dict(mod=loops2coq, src='distributions.py', gen='LoopsGen', equiv='GenLoopsEquiv'),
+    'moments': dict(mod=moments2coq, src='distributions.py', gen='MomentsGen', equiv='GenMomentsEquiv'),
 }
 
 
